@@ -1,6 +1,6 @@
 (* C02 — Send's Status and error truthfully account for what the pipelines did. *)
 From Coq Require Import List Bool NArith ZArith Permutation.
-From Verif Require Import Alist Broker Dispatch DispatchProofs DispatchExamples.
+From Verif Require Import Alist Broker Dispatch DispatchProofs DispatchExamples Run_Dispatch RunDispatchSound DispatchAcceptProofs.
 Import ListNotations.
 
 (* "Never invented", for every schedule and every cancel point: in every reachable state the registered pipelines split
@@ -108,6 +108,25 @@ Theorem C02_threshold_frame : forall cf b ety v o, o = SetThr ety v \/ o = SetTh
   forall ety', ety' <> ety -> thr_of (fst (fst (Broker.step cf b o))) ety' = thr_of b ety'.
 Proof. exact threshold_frame. Qed.
 Print Assumptions C02_threshold_frame.
+
+(* What the check's verdict means: the evaluated function [Run_Dispatch.mismatches] returns [] exactly when, for every case,
+   the recorded trace is an execution of the dispatch model from the pipelines and thresholds the registry model gives for
+   the recorded registration history, complete once quiet, the returned Status / error and the nodes' own logs are the
+   model's, and the observation-only oracles hold ([RunDispatchSound.case_ok]); both directions. *)
+Theorem C02_verdict_is_model_execution : forall cs, mismatches cs = [] <-> Forall case_ok cs.
+Proof. exact mismatches_nil_iff. Qed.
+Print Assumptions C02_verdict_is_model_execution.
+
+(* and therefore the returned Status of an accepted Send is, as multisets, the model collector's, which holds exactly one final
+   status per pipeline of a sub-multiset of the registry model's pipelines *)
+Theorem C02_verdict_status_never_invented : forall c roots, case_ok c -> model_roots c = Some roots -> roots_ok roots ->
+  exists a, reach (beh_of (d_trace c)) (e0_of (d_trace c)) roots (d_pre c) (a_st a) /\
+            (forall acc b, result (a_st a) = Some (acc, b) ->
+               (sortN (completes acc), sortN (complete_sinks acc), sortN (warnings acc)) = status_obs c) /\
+            exists reported others, Permutation (reported ++ others) roots /\
+              Permutation (collected (a_st a)) (flat_map (final_of (beh_of (d_trace c)) (e0_of (d_trace c))) reported).
+Proof. exact verdict_status_never_invented. Qed.
+Print Assumptions C02_verdict_status_never_invented.
 
 Theorem C02_nonvacuous :
   roots_ok ex_roots /\ reach ex_beh ex_e0 ex_roots false ex_final /\ terminal ex_final /\ ctx ex_final = false /\
